@@ -708,6 +708,74 @@ def r4_constants(program, folder, rep):
               construct="flags %r %r" % (fr, fn))
 
 
+def r1_constructor_range(program, folder, rep):
+    """A packet can be built for every value its header field carries: a
+    range test in SDPPacket.__init__ that refuses values below the top of
+    the field (e.g. cores 18..31 of the 5-bit core field: the host-side
+    'core' 31 is one of them) makes packets the decoder produces impossible
+    to rebuild and to send."""
+    from ..util import unroll_literal_loops
+    fn0 = program.get(MOD + ":SDPPacket.__init__")
+    if not raises_in(fn0):
+        rep.ok("C15-R1", qual(fn0), "the constructor refuses no field "
+               "value", fn0)
+        return
+    fn, _ = unroll_literal_loops(fn0)
+    fn._module = fn0._module
+    fn._qualname = fn0._qualname
+    for x in ast.walk(fn):
+        for y in ast.iter_child_nodes(x):
+            y._parent = x
+    T = Terms(fn)
+    widths = {}
+    for lay in SDP_LAYOUT.values():
+        for f_, (lo, n, b) in lay.items():
+            widths[f_] = n
+    n_checked = 0
+    for r in raises_in(fn):
+        rn = T.cfg.node_of(r)
+        tops = []
+        for t, p in T.all_facts(rn):
+            t = plain(t)
+            if t[0] == "cmp" and t[1] in ("Lt", "LtE") and p:
+                # raised with  const < field / const <= field
+                a, b = t[2], t[3]
+                if b[0] == "param" and b[1] in widths and \
+                        a[0] == "const" and isinstance(a[1], int):
+                    tops.append((b, a[1] if t[1] == "Lt" else a[1] - 1))
+            elif t[0] == "and" and not p:
+                # raised unless all of  ... field <= const ...  hold
+                for c in t[1:]:
+                    if c[0] == "cmp" and c[1] in ("Lt", "LtE") and \
+                            c[2][0] == "param" and c[2][1] in widths and \
+                            c[3][0] == "const" and isinstance(c[3][1], int):
+                        tops.append((c[2], c[3][1] if c[1] == "LtE"
+                                     else c[3][1] - 1))
+        for b, top in tops:
+            if top is not None:
+                n_checked += 1
+                full = (1 << widths[b[1]]) - 1
+                rep.check(top >= full, "C15-R1", qual(fn0),
+                          "%s is refused only above %d, the top of its "
+                          "%d-bit header field" % (b[1], full, widths[b[1]]),
+                          construct="accepted maximum of %s = %d" % (b[1],
+                                                                     top),
+                          node=r,
+                          fail="SDPPacket.__init__ refuses %s above %d, but "
+                               "its header field is %d bits wide (0..%d): "
+                               "packets for the values in between, which "
+                               "the decoder produces and the machine uses, "
+                               "can no longer be built or sent" % (
+                                   b[1], top, widths[b[1]], full))
+    if not n_checked:
+        raise AnalysisError("SDPPacket.__init__ raises under conditions "
+                            "these rules do not read")
+
+
+def raises_in(fn):
+    return [r for r in ast.walk(fn) if isinstance(r, ast.Raise)]
+
+
 def r1_forwarding(program, rep):
     """SCPPacket.__init__ hands its SDP-level arguments to SDPPacket.__init__
     each under the parameter of the same name."""
@@ -745,6 +813,7 @@ def r1_forwarding(program, rep):
 def check(program, rep):
     program.module(MOD)
     folder = Folder(program)
+    rep.guard("C15-R1", r1_constructor_range, program, folder, rep)
     res = rep.guard("C15-R1", r1_encoder, program, folder, rep)
     rep.guard("C15-R1", r1_forwarding, program, rep)
     if res:
